@@ -447,7 +447,7 @@ func NoHandlerClient(res *fw.Result, seed int64, base int) error {
 // client's frame queue (it is large and slow to decode) when the connection ends and the client redials:
 // it is executed after the new connection was installed.  It is nevertheless a request of the old
 // connection, and its answer must not appear on the new one.
-func StaleAnswerQueued(res *fw.Result, seed int64, base int) error {
+func StaleAnswerQueued(d *fw.Driver, res *fw.Result, seed int64, base int) error {
 	e, err := scen.NewEnv(seed+int64(base), 0, jsonrpc.WithReverseClient[RevAPI]("Rev"))
 	if err != nil {
 		return err
@@ -519,6 +519,10 @@ func StaleAnswerQueued(res *fw.Result, seed int64, base int) error {
 		res.Add(fw.Finding{Kind: "monitor", Signature: sig + " blocked", Detail: "the forward call on the new connection did not return", Case: c})
 	}
 	c14.CheckAnswers(res, e.PX.Frames(), sig)
+	time.Sleep(20 * time.Millisecond)
+	if err := CheckEpoch(d, res, e.RT.Events(), sig); err != nil {
+		return err
+	}
 	res.Count("stale-answer-queued")
 	res.SampleKeep(map[string]interface{}{"scenario": "stale-answer-queued", "old_request_executed_before_heal": enteredBeforeHeal, "old_request_executed": h.C.Entered(arg1) > 0, "connections": e.PX.Accepted()})
 	res.Eval(true, []interface{}{"stale-answer-queued"})
